@@ -1,6 +1,8 @@
 package main
 
 import (
+	"fmt"
+	"strings"
 	"strconv"
 
 	"github.com/johnkerl/miller/v6/pkg/mlrval"
@@ -148,6 +150,35 @@ func init() {
 		}
 		return hx(out)
 	}
+	// dslsortmv <flags> <items> => values of sort({"k0": item0, "k1": item1, ...}, flags + "v") (a map sorted BY VALUE),
+	// ';'-joined; "err-pairing" if some key no longer carries its own value
+	ops["dslsortmv"] = func(a []string) string {
+		flags := unhx(a[0])
+		if flags == "-" {
+			flags = ""
+		}
+		items := splitFlags(a[1])
+		m := "{"
+		for i, it := range items {
+			if i > 0 {
+				m += ","
+			}
+			lit := "\"" + it + "\""
+			if it != "" && (it[0] == '-' || (it[0] >= '0' && it[0] <= '9')) {
+				lit = it
+			}
+			m += fmt.Sprintf("\"k%d\": %s", i, lit)
+		}
+		m += "}"
+		ec, out := runMlrN([]string{"-n", "put", "end{m = " + m + "; s = sort(m, \"" + flags + "v\"); ok = true; for (k, v in s) { if ((m[k] . \"\") != (v . \"\")) { ok = false } } if (!ok || length(s) != length(m)) { print \"PAIRING\" } else { print joinv(s, \";\") } }"})
+		if ec != 0 {
+			return "err"
+		}
+		if strings.HasPrefix(out, "PAIRING") {
+			return hx("err-pairing")
+		}
+		return hx(out)
+	}
 	families["c09dsl"] = func(r *rng, thorough bool) {
 		n := 150
 		if thorough {
@@ -162,6 +193,9 @@ func init() {
 			}
 			fl := r.pick([]string{"-", "n", "f", "c", "nr", "fr", "cr", "r", "t", "tr"})
 			gen("dslsort " + hx(fl) + " " + joinFlags(items))
+			if len(items) > 0 {
+				gen("dslsortmv " + hx(r.pick([]string{"-", "n", "f", "c", "nr", "fr", "cr", "rc", "r"})) + " " + joinFlags(items))
+			}
 		}
 	}
 }
